@@ -55,6 +55,9 @@ def main():
         for case in cases:
             i = case.get('_i', 0)
             t0 = time.time()
+            fs = sys.modules.get('vf.fsmon')
+            if fs is not None:
+                fs.reset()      # a window left active by an interrupted case
             signal.setitimer(signal.ITIMER_REAL, per_case)
             try:
                 res = mod.run_case(case)
